@@ -45,6 +45,7 @@ type script struct {
 	flush   []bool
 	hijack  bool
 	early   bool // send "103 Early Hints" before the final status
+	abort   bool // after its writes the handler aborts (panic(http.ErrAbortHandler)), as a reverse proxy does when its backend or client breaks off
 	// what the handler observed
 	invoked    int
 	gotFlusher bool
@@ -125,6 +126,9 @@ func runScript(sim *simrt.Sim, w http.ResponseWriter, req *http.Request) {
 			}
 		}
 	}
+	if sc.abort {
+		panic(http.ErrAbortHandler)
+	}
 }
 
 func TestC20(t *testing.T) {
@@ -196,7 +200,8 @@ func c20prop(r *simkit.Run) {
 			must(err)
 			h = t
 		case "connlimit":
-			lim := int64(100)
+			// not reached by sequential traffic whatever it is: one request at a time is inside
+			lim := int64(rapid.SampledFrom([]int{1, 2, 100}).Draw(rt, "idle-conn-limit"))
 			if iv {
 				lim = int64(rapid.IntRange(1, 3).Draw(rt, "conn-limit"))
 			}
@@ -410,6 +415,21 @@ func c20prop(r *simkit.Run) {
 	sim.NoteStr("stack", strings.Join(names, ","))
 	sim.Note("intervene", int64(intervene), int64(probe.status), int64(len(reqBody)))
 	sim.NoteStr("probe", fmt.Sprint(probe.headers, probe.chunks, probe.flush, probe.hijack, probe.early, method, writerKind))
+	// earlier requests of the same client whose handler aborted (the abort propagates, as it must) leave nothing
+	// behind that gives a layer a reason to intervene later
+	if intervene < 0 {
+		for k, n := 0, rapid.IntRange(0, 3).Draw(rt, "earlier-aborted-requests"); k < n; k++ {
+			sc := &script{status: 200, chunks: []int{3}, flush: []bool{false}, abort: true}
+			rec, t, _ := send(sc, "probe-src", nil, "GET")
+			if sc.invoked != 1 {
+				r.Fail("invocation-count", "no layer has a reason to intervene, yet request %d of this client (its handler was going to abort) reached the handler %d times, client status %d %s", k+1, sc.invoked, rec.Status, ctxt())
+			}
+			if t.Panic == nil || fmt.Sprint(t.Panic) != fmt.Sprint(http.ErrAbortHandler) {
+				r.Fail("abort-swallowed", "the handler aborted with http.ErrAbortHandler; the stack ended the request with %v %s", t.Panic, ctxt())
+			}
+			r.Probe("earlier-request-aborted")
+		}
+	}
 	// a limiter that has a reason to refuse one source has none to touch another: by draw the probe comes from a
 	// bystander and must pass through the whole stack untouched, with the first source still at its limit
 	probeSrc, bystander := "probe-src", false
